@@ -1,6 +1,6 @@
 SPECIFICATION FairSpec
 CONSTANTS
-  Sizes = {0, 1, 2, 3, 4}
+  Sizes = {0, 1, 2, 3}
   Chunk = 2
   MaxFaults = 2
   Modes = {"real2", "scrU", "scrD"}
@@ -8,6 +8,8 @@ CONSTANTS
   ZeroFix = TRUE
   OffsetErrFix = TRUE
   LateNotice = FALSE
+  Twin = FALSE
+  PathLockFix = TRUE
 INVARIANT TypeOK
 INVARIANT DCompleteIsIdentical
 INVARIANT PrefixKept
